@@ -254,6 +254,20 @@ def check_case(case) -> Obs:
     back4 = _flat(rnd4.derandomize_wells(list(reversed(img))))
     if back4 != rev:
         obs.bad("C15/rand-query-order", f"{R}x{C} seed={seed} mode={mode}: a fresh randomizer with the same seed does not invert another one's randomisation")
+    # a copy of the randomizer (copy, deepcopy, pickle round trip) is the same mapping
+    import copy
+    import pickle
+
+    for how, fn in (("copy.copy", copy.copy), ("copy.deepcopy", copy.deepcopy), ("pickle", lambda o: pickle.loads(pickle.dumps(o)))):
+        try:
+            twin = fn(rnd)
+            img_t = _flat(twin.randomize_wells(allwells))
+            back_t = _flat(twin.derandomize_wells(img))
+        except Exception as e:  # noqa
+            obs.bad("C15/rand-copy", f"{R}x{C} seed={seed} mode={mode}: a {how} of the randomizer raised {type(e).__name__}: {e}")
+            continue
+        if img_t != img or back_t != allwells:
+            obs.bad("C15/rand-copy", f"{R}x{C} seed={seed} mode={mode}: a {how} of the randomizer maps the plate differently / does not invert the original")
     lookup = dict(zip(allwells, img))
     for name, arg, shape in _args(case["sub"], R, C):
         src = _flat(arg)
